@@ -75,3 +75,17 @@ Theorem C14_checker_fuel : forall (allow : allowlist) (s : bytes),
   doc_chk (S (length s)) allow s <> POut.
 Proof. exact safe_doc_b_fuel. Qed.
 Print Assumptions C14_checker_fuel.
+
+(* what the judge computes on forests thousands of levels deep (no copying per
+   level) is the model's function *)
+Theorem C14_fast_model : forall (slices : list (list (option bytes))) (forest : list hnode),
+  striptags_fast slices forest = striptags slices forest.
+Proof. exact striptags_fast_spec. Qed.
+Print Assumptions C14_fast_model.
+
+(* the flat, document-order encoding in which the harness hands a parse tree of
+   any depth to the judge loses nothing *)
+Theorem C14_flat_roundtrip : forall forest : list hnode,
+  build_forest (flatten_forest forest) = forest.
+Proof. exact build_flatten. Qed.
+Print Assumptions C14_flat_roundtrip.
